@@ -13,7 +13,7 @@ import numpy as np
 import trajfiles as tf
 from common import isolated
 
-MODELLED = ["h5", "nc", "dtr", "xtc", "trr", "dcd", "mdcrd", "lammpstrj", "xyz"]
+MODELLED = ["h5", "nc", "dtr", "xtc", "trr", "dcd", "mdcrd", "lammpstrj", "xyz", "gro"]
 STORES_TIME = {"h5", "nc", "dtr", "xtc", "trr", "gro"}
 STORES_CELL = {"h5", "nc", "dtr", "xtc", "trr", "dcd", "mdcrd", "lammpstrj", "gro", "pdb"}
 NEEDS_CELL = {"lammpstrj", "dtr"}
@@ -169,7 +169,7 @@ def run(ctx):
                 "non-trivial = distinct (format, history) with at least two writes")
     ctx.assumptions += ["what HDF5/netCDF/stdio/the kernel persist at a kill is observed, not proved; DCD and TRR have no flush()",
                         "xtc/trr accept a write without time and fill 0,1,2,... (documented): not treated as ragged",
-                        "gro and pdb writers take the topology per call; they are checked for partition independence only"]
+                        "the pdb writer takes the topology per call and writes one model per call; it is checked for partition independence only"]
     rng = ctx.rng
     n = ctx.n(5, 7)
     src = Src(md, 8)
@@ -181,7 +181,7 @@ def run(ctx):
         seen.setdefault(key, (what, rp))
 
     # ---- (1) partitions
-    for ext in MODELLED + ["gro", "pdb"]:
+    for ext in MODELLED + ["pdb"]:
         for cell, time in ((True, True), (False, False)):
             if (ext in NEEDS_CELL and not cell) or (ext in NEEDS_TIME and not time) or (ext == "xyz" and cell):
                 continue
@@ -201,16 +201,19 @@ def run(ctx):
                 ctx.case(dict(ext=ext, partition=[len(p_) for p_ in parts_], cell=cell, time=time), (ext, tuple(map(tuple, parts_)), cell, time) if len(parts_) > 1 else None)
                 ctx.count("partitions:" + ext)
                 bad = None
+                timekey = ""
                 if err or ids != ids1:
                     bad = "loads as %s %s" % (ids, err)
                 elif not np.array_equal(t.xyz, t1.xyz):
                     bad = "coordinates differ from the one-shot file"
-                elif ext in STORES_TIME and time and not np.allclose(t.time, t1.time):
+                elif not np.allclose(t.time, t1.time):
+                    # with or without time stamps handed to write(): what the file reports must not depend on how the frames were split
                     bad = "times %s differ from the one-shot file's %s" % (t.time, t1.time)
+                    timekey = "" if time else "|no-time-given"
                 elif (t.unitcell_lengths is None) != (t1.unitcell_lengths is None) or (t.unitcell_lengths is not None and not np.allclose(t.unitcell_lengths, t1.unitcell_lengths)):
                     bad = "unit cells differ from the one-shot file"
                 if bad:
-                    viol("%s|partition" % ext, "writing %d frames to .%s in calls of sizes %s: %s" % (n, ext, [len(p_) for p_ in parts_], bad),
+                    viol("%s|partition%s" % (ext, timekey), "writing %d frames to .%s in calls of sizes %s: %s" % (n, ext, [len(p_) for p_ in parts_], bad),
                          dict(ext=ext, ops=[tok(o) for o in ops]))
     if not ctx.quick:
         ctx.notes.append("all 2^(n-1) ordered partitions for n=%d, every format" % n)
